@@ -9,6 +9,7 @@ import F1Verif.Drive.Iteration
 import F1Verif.Drive.Parse
 import F1Verif.Drive.Plan
 import F1Verif.Drive.Run
+import F1Verif.Drive.Pool
 /-!
 Line-protocol driver (`f1model`). One case per line on stdin:
 
@@ -24,6 +25,11 @@ def dispatch (op : String) : Option (List String → List String → Option (Str
   | "verdict" => some verdict
   | "dist" => some dist
   | "run" => some runOp
+  | "jobcounter" => some jobcounter
+  | "pool.script" => some poolScript
+  | "pool.stress" => some poolSpec
+  | "pool.usable" => some poolSpec
+  | "pool.handles" => some poolSpec
   | "raterun.stop" => some raterunOp
   | "raterun.switch" => some raterunOp
   | "raterun.count" => some raterunOp
